@@ -74,7 +74,7 @@ func (l *memLayer) Dial(address raft.ServerAddress, timeout time.Duration) (net.
 	if t == nil {
 		return nil, fmt.Errorf("no route to %s", address)
 	}
-	c1, c2 := net.Pipe()
+	c1, c2 := bufferedPair()
 	var dialer net.Conn = c1
 	if k > 0 {
 		dialer = &breakConn{Conn: c1, other: c2, left: k}
@@ -87,6 +87,69 @@ func (l *memLayer) Dial(address raft.ServerAddress, timeout time.Duration) (net.
 	case <-time.After(timeout):
 		return nil, errors.New("dial timeout")
 	}
+}
+
+// bufferedPair is a connection with send buffers, as a TCP connection has: a
+// writer is not held up by a peer that is not reading (net.Pipe alone is
+// synchronous). Each direction is pumped through an unbounded queue; deadlines
+// of the two endpoints work as net.Pipe's do.
+func bufferedPair() (net.Conn, net.Conn) {
+	a1, a2 := net.Pipe()
+	b1, b2 := net.Pipe()
+	pump := func(from, to net.Conn) {
+		var mu sync.Mutex
+		var q [][]byte
+		closed := false
+		wake := make(chan struct{}, 1)
+		go func() {
+			buf := make([]byte, 32*1024)
+			for {
+				n, err := from.Read(buf)
+				mu.Lock()
+				if n > 0 {
+					q = append(q, append([]byte(nil), buf[:n]...))
+				}
+				if err != nil {
+					closed = true
+				}
+				mu.Unlock()
+				select {
+				case wake <- struct{}{}:
+				default:
+				}
+				if err != nil {
+					return
+				}
+			}
+		}()
+		go func() {
+			for range wake {
+				for {
+					mu.Lock()
+					var chunk []byte
+					if len(q) > 0 {
+						chunk, q = q[0], q[1:]
+					}
+					done := closed && len(q) == 0 && chunk == nil
+					mu.Unlock()
+					if chunk == nil {
+						if done {
+							_ = to.Close()
+							return
+						}
+						break
+					}
+					if _, err := to.Write(chunk); err != nil {
+						_ = from.Close()
+						return
+					}
+				}
+			}
+		}()
+	}
+	pump(a2, b1)
+	pump(b1, a2)
+	return a1, b2
 }
 
 type breakConn struct {
@@ -189,11 +252,13 @@ type c16Env struct {
 	received []any
 	bodies   [][]byte
 	answer   func(n int, cmd any) (any, error, time.Duration)
-	stop     chan struct{}
+	// readLimit: how many bytes of a streamed body the handler reads (-1 = all)
+	readLimit int
+	stop      chan struct{}
 }
 
 func newC16Env(maxInFlight int, newTime bool, timeout time.Duration) *c16Env {
-	e := &c16Env{net: &memNet{layers: map[string]*memLayer{}}, stop: make(chan struct{})}
+	e := &c16Env{net: &memNet{layers: map[string]*memLayer{}}, stop: make(chan struct{}), readLimit: -1}
 	mk := func(addr string) *raft.NetworkTransport {
 		return raft.NewNetworkTransportWithConfig(&raft.NetworkTransportConfig{Stream: e.net.layer(addr), MaxPool: 2, MaxRPCsInFlight: maxInFlight, Timeout: timeout,
 			Logger: hclog.NewNullLogger(), MsgpackUseNewTimeFormat: newTime})
@@ -206,7 +271,14 @@ func newC16Env(maxInFlight int, newTime bool, timeout time.Duration) *c16Env {
 			case rpc := <-e.t2.Consumer():
 				var body []byte
 				if rpc.Reader != nil {
-					body, _ = io.ReadAll(rpc.Reader)
+					e.mu.Lock()
+					lim := e.readLimit
+					e.mu.Unlock()
+					if lim >= 0 {
+						body, _ = io.ReadAll(io.LimitReader(rpc.Reader, int64(lim)))
+					} else {
+						body, _ = io.ReadAll(rpc.Reader)
+					}
 				}
 				e.mu.Lock()
 				e.received = append(e.received, rpc.Command)
@@ -252,6 +324,9 @@ type c16Call struct {
 	TNResp     *raft.TimeoutNowResponse      `json:"tn_resp,omitempty"`
 	IS         *raft.InstallSnapshotRequest  `json:"is,omitempty"`
 	ISResp     *raft.InstallSnapshotResponse `json:"is_resp,omitempty"`
+	// ISRead: how much of the streamed snapshot body the handler reads before it
+	// answers (-1 or absent = all of it; a handler that fails early reads less)
+	ISRead *int `json:"is_handler_reads,omitempty"`
 }
 
 // c16Seq is a sequence of calls made one after the other over one pair of
@@ -286,6 +361,10 @@ func genC16Call(rt *rapid.T) c16Call {
 		c.IS = &raft.InstallSnapshotRequest{RPCHeader: genHeader(rt), SnapshotVersion: raft.SnapshotVersion(rapid.IntRange(0, 1).Draw(rt, "sv")), Term: rapid.Uint64().Draw(rt, "term"), Leader: genBytes(rt, "leader", 12),
 			LastLogIndex: rapid.Uint64().Draw(rt, "li"), LastLogTerm: rapid.Uint64().Draw(rt, "lt"), Peers: genBytes(rt, "peers", 12), Configuration: genBytes(rt, "conf", 40), ConfigurationIndex: rapid.Uint64().Draw(rt, "ci"), Size: int64(size)}
 		c.ISResp = &raft.InstallSnapshotResponse{RPCHeader: genHeader(rt), Term: rapid.Uint64().Draw(rt, "rterm"), Success: rapid.Bool().Draw(rt, "ok")}
+		if size > 0 && rapid.IntRange(0, 2).Draw(rt, "partialRead") == 0 {
+			n := rapid.IntRange(0, size-1).Draw(rt, "handlerReads")
+			c.ISRead = &n
+		}
 	}
 	return c
 }
@@ -326,6 +405,10 @@ func c16RunSeq(seq *c16Seq) string {
 			want = c.ISResp
 		}
 		e.mu.Lock()
+		e.readLimit = -1
+		if c.ISRead != nil {
+			e.readLimit = *c.ISRead
+		}
 		e.answer = func(int, any) (any, error, time.Duration) {
 			if c.HandlerErr {
 				return want, errors.New("handler says no"), 0
@@ -420,6 +503,12 @@ func c16RunSeq(seq *c16Seq) string {
 				}
 				e.mu.Lock()
 				defer e.mu.Unlock()
+				if c.ISRead != nil {
+					if !bytes.Equal(e.bodies[i], body[:*c.ISRead]) {
+						return fmt.Sprintf("snapshot body: handler read %d bytes that are not the first %d bytes sent", len(e.bodies[i]), *c.ISRead)
+					}
+					return ""
+				}
 				if !bytes.Equal(e.bodies[i], body) {
 					return fmt.Sprintf("snapshot body: sent %d bytes, handler read %d bytes (equal=%v)", len(body), len(e.bodies[i]), bytes.Equal(e.bodies[i], body))
 				}
